@@ -9,6 +9,7 @@ use crate::spec::{self, *};
 use crate::{ensure, must};
 use bc_components::{EncapsulationScheme, SignatureScheme};
 use bc_envelope::prelude::*;
+use bc_envelope::EnvelopeError;
 #[allow(unused_imports)]
 use dcbor::prelude::*;
 
@@ -20,7 +21,7 @@ pub fn seeded_rng(salt: u64) -> bc_rand::SeededRandomNumberGenerator {
 
 // ------------------------------------------------------------------------------------ C04
 
-const N_OPS: usize = 32;
+const N_OPS: usize = 33;
 /// apply operation `k`; Ok(None) = operation not applicable to this state (documented error returned)
 fn apply(k: usize, e: &Envelope, step: u32) -> R<Option<Envelope>> {
     let fresh = |j: u32| 700 + step * 20 + j;
@@ -129,8 +130,38 @@ fn apply(k: usize, e: &Envelope, step: u32) -> R<Option<Envelope>> {
             ensure!(ra.iter().any(|x| bytes(x) == bytes(&twin)), "the replacement is not among the result's assertions", "");
             Some(r)
         }
+        31 => {
+            // obscure any position (the root too) by the Encrypt / Compress action
+            op("elide_removing_target_with_action (encrypt / compress)");
+            let ps = positions(e); let i = choice(ps.len().min(8));
+            let act = if choice(2) == 0 { ObscureAction::Encrypt(key.clone()) } else { ObscureAction::Compress };
+            let r = e.elide_removing_target_with_action(&ps[i].env, &act);
+            ensure!(dg(&r) == dg(e), "obscuring changed the root digest", "");
+            Some(r)
+        }
         _ => { op("encode->decode"); Some(must!(Envelope::try_from_cbor_data(bytes(e)), "decode of own encoding failed")) }
     })
+}
+
+/// every encrypted (under the harness key) / compressed element the library itself produced opens to content with the
+/// digest it declares (the digests held in the structure agree with those recomputed from its children, also behind
+/// an obscured element)
+fn obscured_content_ok(e: &Envelope) -> Result<(), String> {
+    let key = test_key();
+    for p in positions(e) {
+        match p.kind {
+            Kind::Encrypted => match p.env.decrypt_subject(&key) {
+                Ok(d) => { if dg(&d) != p.d { return Err(format!("at {:?}: encrypted element opens to content with another digest", p.path)); } obscured_content_ok(&d)?; }
+                Err(err) => if matches!(err.downcast_ref::<EnvelopeError>(), Some(EnvelopeError::InvalidDigest)) { return Err(format!("at {:?}: encrypted element declares a digest its content does not have", p.path)); }
+            },
+            Kind::Compressed => match p.env.uncompress() {
+                Ok(d) => { if dg(&d) != p.d { return Err(format!("at {:?}: compressed element opens to content with another digest", p.path)); } obscured_content_ok(&d)?; }
+                Err(err) => return Err(format!("at {:?}: compressed element produced by the library does not uncompress: {}", p.path, err)),
+            },
+            _ => {}
+        }
+    }
+    Ok(())
 }
 
 fn starts() -> Vec<Spec> {
@@ -157,7 +188,7 @@ fn sequences_with(len: usize, reduced: bool) -> R {
     if let Err(m) = well_formed(&e) { return rt::viol("freshly built envelope not canonical", m); }
     let mut trace = vec![s.show()];
     // structural operations that re-sort / merge / collapse; the others are exercised at length 2
-    let core: [usize; 15] = [0, 1, 2, 4, 5, 6, 7, 9, 14, 16, 23, 24, 26, 28, 30];
+    let core: [usize; 16] = [0, 1, 2, 4, 5, 6, 7, 9, 14, 16, 23, 24, 26, 28, 30, 31];
     for step in 0..len {
         let quick_core: [usize; 10] = [0, 2, 4, 5, 6, 7, 9, 14, 16, 24];
         let len4_core: [usize; 8] = [0, 2, 4, 5, 6, 7, 9, 24];
@@ -169,6 +200,7 @@ fn sequences_with(len: usize, reduced: bool) -> R {
         ensure!(bytes(&recv) == before, "operation altered its receiver", "{:?}", trace);
         if let Some(x) = r {
             if let Err(m) = well_formed(&x) { return rt::viol("result not canonical / well-formed", format!("{:?}: {}", trace, m)); }
+            if let Err(m) = obscured_content_ok(&x) { return rt::viol("obscured element inconsistent with its content", format!("{:?}: {}", trace, m)); }
             e = x;
         }
     }
@@ -254,6 +286,32 @@ fn roundtrip() -> R {
     // untagged route
     let v = must!(Envelope::from_untagged_cbor(e.untagged_cbor()), "untagged decode failed");
     ensure!(bytes(&v) == b, "untagged round trip not identical", "");
+    Ok(())
+}
+
+/// the result of every single operation (the C04 operation set, every argument choice) on every start envelope
+/// round-trips exactly
+fn after_operation() -> R {
+    let st = starts();
+    let s = &st[choice(st.len())];
+    let e0 = build(s);
+    let k = choice(N_OPS);
+    let Some(e) = apply(k, &e0, 0)? else { return Ok(()) };
+    let what = crate::engine::cur_op();
+    rt::note(format!("{} then {}", s.show(), what));
+    let b = bytes(&e);
+    op("try_from_cbor_data");
+    let d = must!(Envelope::try_from_cbor_data(b.clone()), "decode of own encoding failed");
+    ensure!(d.is_identical_to(&e) && e.is_identical_to(&d) && d == e, "decoded envelope not identical", "{} after {}", s.show(), what);
+    let (pe, pd) = (positions(&e), positions(&d));
+    ensure!(pe.len() == pd.len(), "decoded envelope has another number of elements", "{} vs {} ({} after {})", pe.len(), pd.len(), s.show(), what);
+    for (x, y) in pe.iter().zip(pd.iter()) {
+        ensure!(x.path == y.path && x.kind == y.kind && x.d == y.d, "decoded element differs in case or digest", "at {:?}: {:?}/{:?} ({} after {})", x.path, x.kind, y.kind, s.show(), what);
+    }
+    ensure!(bytes(&d) == b, "re-encoding differs from the original bytes", "{} after {}", s.show(), what);
+    op("ur_string/from_ur_string");
+    let u = must!(Envelope::from_ur_string(e.ur_string()), "UR decode failed");
+    ensure!(u.is_identical_to(&e) && bytes(&u) == b, "UR round trip not identical", "");
     Ok(())
 }
 
@@ -550,15 +608,15 @@ pub fn prop_c04() -> Prop {
         id: "C04",
         scenarios: vec![
             Scenario { name: "sequences2", f: seq2, thorough_only: false,
-                bounds: "13 start envelopes (leaf, known value, assertion, wrapped, nodes with 1-3 assertions, decorated assertion, wrapped node subject, elided / compressed / encrypted children, assertion subject) x every sequence of 2 operations out of 32 (replace_assertion by the assertion itself / its elided / compressed form, every adding entry point with a non-assertion argument, replace_assertion with an invalid / already present replacement, replace_subject by the envelope itself / by a node sharing an assertion, add, add duplicate, add an elided/compressed copy of a present assertion, add the clear copy of an elided assertion, remove present/absent, replace assertion, replace subject by leaf / by node, wrap, unwrap, elide removing / revealing, compress(_subject), uncompress(_subject), encrypt_subject, decrypt_subject, add_salt_instance, add_assertion_salted, add_signature, add_recipient, add_type, add_attachment, encode->decode) with every argument choice x every digest order; after each step: structure well-formed, stored digests == recomputed, serialized bytes accepted by an independent grammar recogniser, assertion elements strictly ascending under the path condition, receiver unchanged",
+                bounds: "13 start envelopes (leaf, known value, assertion, wrapped, nodes with 1-3 assertions, decorated assertion, wrapped node subject, elided / compressed / encrypted children, assertion subject) x every sequence of 2 operations out of 33 (obscuring any position by the Encrypt / Compress action, replace_assertion by the assertion itself / its elided / compressed form, every adding entry point with a non-assertion argument, replace_assertion with an invalid / already present replacement, replace_subject by the envelope itself / by a node sharing an assertion, add, add duplicate, add an elided/compressed copy of a present assertion, add the clear copy of an elided assertion, remove present/absent, replace assertion, replace subject by leaf / by node, wrap, unwrap, elide removing / revealing, compress(_subject), uncompress(_subject), encrypt_subject, decrypt_subject, add_salt_instance, add_assertion_salted, add_signature, add_recipient, add_type, add_attachment, encode->decode) with every argument choice x every digest order; after each step: structure well-formed, stored digests == recomputed, serialized bytes accepted by an independent grammar recogniser, assertion elements strictly ascending under the path condition, every encrypted / compressed element opens to content with the digest it declares, receiver unchanged",
                 api: &["add_assertion", "add_assertion_envelope", "remove_assertion", "replace_assertion", "replace_subject", "wrap_envelope", "unwrap_envelope", "elide_removing_target", "elide_revealing_array", "compress", "compress_subject", "uncompress", "uncompress_subject", "encrypt_subject", "decrypt_subject", "add_salt_instance", "add_assertion_salted", "add_signature", "add_recipient", "add_type", "add_attachment", "try_from_cbor_data", "tagged_cbor"] },
             Scenario { name: "sequences3", f: seq3, thorough_only: false,
-                bounds: "7 node-shaped starts (quick) / all 13 (thorough) x every sequence of 3 operations out of 10 structural ones (quick) / 15 (thorough) (replace by an element of the same digest, replace with a present twin, replace_subject by a node sharing an assertion, add, add duplicate, add obscured/clear copy of a present assertion, remove, replace assertion, replace subject by leaf / node, wrap, elide, uncompress_subject, decrypt_subject) x every digest order",
+                bounds: "7 node-shaped starts (quick) / all 13 (thorough) x every sequence of 3 operations out of 10 structural ones (quick) / 16 (thorough) (obscure by Encrypt / Compress action, replace by an element of the same digest, replace with a present twin, replace_subject by a node sharing an assertion, add, add duplicate, add obscured/clear copy of a present assertion, remove, replace assertion, replace subject by leaf / node, wrap, elide, uncompress_subject, decrypt_subject) x every digest order",
                 api: &["add_assertion", "add_assertion_envelope", "remove_assertion", "replace_assertion", "replace_subject", "wrap_envelope", "elide_removing_target", "uncompress_subject", "decrypt_subject"] },
             Scenario { name: "crafted", f: crafted, thorough_only: false,
                 bounds: "an encrypted or compressed element built through the public conversions whose content (leaf, node, wrapped, assertion) does not hash to the digest it declares (3 declared digests, one of them honest) x 0..2 assertions added x as built / after encode->decode x one of 6 operations (decrypt_subject, uncompress_subject, uncompress, compress_subject, encrypt_subject, replace_subject) x every digest order: whatever is returned is well-formed and its stored digests agree with recomputation",
                 api: &["TryFrom<EncryptedMessage> for Envelope", "TryFrom<Compressed> for Envelope", "add_assertion_envelope", "decrypt_subject", "uncompress_subject", "uncompress", "compress_subject", "encrypt_subject", "replace_subject", "try_from_cbor_data"] },
-            Scenario { name: "sequences3_full", f: seq3_full, thorough_only: true, bounds: "every sequence of 3 operations out of all 32", api: &["(all of sequences2)"] },
+            Scenario { name: "sequences3_full", f: seq3_full, thorough_only: true, bounds: "every sequence of 3 operations out of all 33", api: &["(all of sequences2)"] },
             Scenario { name: "sequences4", f: seq4, thorough_only: true, bounds: "7 node-shaped starts x every sequence of 4 operations out of 8 (add, remove, replace assertion, replace subject by leaf / node, wrap, elide, add the clear copy of an elided assertion) x every digest order", api: &["(all of sequences3)"] },
         ],
         assumptions: COMMON_ASSUMPTIONS.to_vec(),
@@ -572,6 +630,9 @@ pub fn prop_c05() -> Prop {
             Scenario { name: "roundtrip", f: roundtrip, thorough_only: false,
                 bounds: "every shape of <=7 (quick) / <=9 (thorough) elements with known values + 21 larger shapes + every shape of <=4 (5) elements with obscured elements, each with 0, 1 or 2 further positions (any) elided / encrypted / compressed x every digest order: CBOR, UR and untagged routes; identical, same case and digest at every position, same bytes after re-encoding",
                 api: &["tagged_cbor", "untagged_cbor", "try_from_cbor_data", "from_untagged_cbor", "ur_string", "from_ur_string", "is_identical_to", "PartialEq"] },
+            Scenario { name: "after_operation", f: after_operation, thorough_only: false,
+                bounds: "13 start envelopes x each of the 33 operations of C04 with every argument choice x every digest order: the result decodes to an identical envelope (case and digest at every position, identical bytes on re-encoding, UR route)",
+                api: &["(every operation of C04 sequences2)", "try_from_cbor_data", "from_ur_string", "is_identical_to"] },
             Scenario { name: "leaf_types", f: roundtrip_leaves, thorough_only: false,
                 bounds: "42 leaf / known values over every CBOR type (incl. byte strings that are themselves one encoded item or a serialized envelope, known values beyond 2^32) (integer widths, negative, floats incl. reducible / inf / nan, text incl. non-ASCII and 300 chars, byte strings incl. 32 bytes, bool, null, arrays, maps, tagged incl. tag 200 inside a leaf, dates) x 4 positions. Catalogue, not solver-quantified",
                 api: &["Envelope::new(CBOR)", "try_from_cbor_data", "ur_string", "from_ur_string"] },
